@@ -32,7 +32,7 @@ Gate == pc = "gate" /\ UNCHANGED filesChanged /\
          ELSE Goto("aftergate") /\ UNCHANGED <<log, exit>>)
 AfterGate == pc = "aftergate" /\ UNCHANGED <<log, exit, filesChanged>> /\ Goto(IF conf.dry THEN "done" ELSE IF MCommit(conf) THEN "status" ELSE "write")
 Status == pc = "status" /\ Emit("status") /\ UNCHANGED filesChanged
-          /\ (IF Fails("status") \/ (conf.dirty /\ ~conf.allow) THEN Fail ELSE Goto("write") /\ UNCHANGED exit)
+          /\ (IF Fails("status") \/ DirtyBlocks(conf) THEN Fail ELSE Goto("write") /\ UNCHANGED exit)
 Write == pc = "write" /\ filesChanged' = TRUE /\ UNCHANGED <<log, exit>> /\ Goto(IF MCommit(conf) THEN "prehook" ELSE "done")
 PreHook == pc = "prehook" /\ UNCHANGED filesChanged /\
            (IF conf.pre = "absent" THEN Goto("add") /\ UNCHANGED <<log, exit>>
